@@ -6,10 +6,10 @@ func init() {
 	register(&Prop{
 		ID: "C08",
 		Explanation: "Spread rewards and incentives reach the liquidity that earned them, structural clauses: crossing a tick flips its snapshots to (global + this swap's growth) − old and global − old per uptime; a new tick's snapshot is the global value iff the current tick is at or above it; growth above/below a tick follows the documented case table (upper: current ≥ tick ⇒ global − snapshot; lower: current < tick ⇒ global − snapshot) and growth inside an uptime range the three-way split on current < lower / current < upper; " +
-			"pool accumulators are brought up to now before positions, ticks or incentive records change; claiming sets the position's snapshot to init + growth outside, claims, then re-bases to global − outside; emission pays min(emitted, remaining) and deducts exactly what it paid; rewards for an uptime the position has not reached are forfeited, never added to the collected coins.",
+			"pool accumulators are brought up to now before positions, ticks or incentive records change; claiming sets the position's snapshot to init + growth outside, claims, then re-bases to global − outside; emission pays min(emitted, remaining) and deducts exactly what it paid; rewards for an uptime the position has not reached are forfeited, never added to the collected coins. Round 8: after a claim the surviving position is always re-based to global − growth outside, whatever was paid.",
 		NotCovered:  []string{"proportionality and identical-positions-earn-identical-rewards as numbers", "totals claimable vs paid in over histories"},
 		Assumptions: []string{"osmoutils/accum semantics (C15)"},
-		MinObl:      68,
+		MinObl:      69,
 		Run:         runC08,
 	})
 }
